@@ -2,4 +2,835 @@ import TensorModel.Run
 /-! Helper lemmas for C05 (iterators). -/
 namespace TM
 
+/-! ### list arithmetic -/
+
+theorem prod_pos : ∀ (l : List Int), (∀ d ∈ l, 0 < d) → 0 < prod l
+  | [], _ => by simp [prod]
+  | x :: xs, h => by
+    simp only [prod]
+    exact Int.mul_pos (h x (by simp)) (prod_pos xs (fun d hd => h d (by simp [hd])))
+
+theorem prod_append : ∀ (a b : List Int), prod (a ++ b) = prod a * prod b
+  | [], b => by simp [prod]
+  | x :: xs, b => by simp [prod, prod_append xs b, Int.mul_assoc]
+
+theorem prod_reverse : ∀ (l : List Int), prod l.reverse = prod l
+  | [] => rfl
+  | x :: xs => by simp [prod_append, prod, prod_reverse xs, Int.mul_comm]
+
+theorem dot_nil_left (b : List Int) : dot [] b = 0 := by simp [dot]
+theorem dot_nil_right (a : List Int) : dot a [] = 0 := by cases a <;> simp [dot]
+
+theorem dot_append : ∀ (a a' b b' : List Int), a.length = a'.length →
+    dot (a ++ b) (a' ++ b') = dot a a' + dot b b'
+  | [], [], b, b', _ => by simp [dot]
+  | [], _ :: _, _, _, h => by simp at h
+  | _ :: _, [], _, _, h => by simp at h
+  | x :: xs, y :: ys, b, b', h => by
+    have := dot_append xs ys b b' (by simpa using h)
+    simp only [List.cons_append, dot, this]; omega
+
+theorem dot_reverse : ∀ (a b : List Int), a.length = b.length → dot a.reverse b.reverse = dot a b
+  | [], [], _ => by simp [dot]
+  | [], _ :: _, h => by simp at h
+  | _ :: _, [], h => by simp at h
+  | x :: xs, y :: ys, h => by
+    have hl : xs.length = ys.length := by simpa using h
+    simp only [List.reverse_cons]
+    rw [dot_append _ _ _ _ (by simpa using hl), dot_reverse xs ys hl]
+    simp only [dot]; omega
+
+/-! ### mixed-radix digits (least significant axis first) -/
+
+/-- reversed mixed-radix digits of `k` for the reversed shape `rsh` -/
+def digits : List Int → Int → List Int
+  | [], _ => []
+  | sh :: shs, k => (k % sh) :: digits shs (k / sh)
+
+@[simp] theorem digits_length : ∀ (rsh : List Int) (k : Int), (digits rsh k).length = rsh.length
+  | [], _ => rfl
+  | _ :: shs, k => by simp [digits, digits_length shs]
+
+theorem digits_zero : ∀ (rsh : List Int), digits rsh 0 = rsh.map (fun _ => 0)
+  | [] => rfl
+  | _ :: shs => by simp [digits, digits_zero shs]
+
+theorem divmod_succ_carry {k sh : Int} (hs : 0 < sh) (h : k % sh + 1 = sh) :
+    (k + 1) % sh = 0 ∧ (k + 1) / sh = k / sh + 1 := by
+  have h1 := Int.emod_add_mul_ediv k sh
+  have : (k + 1) / sh = k / sh + 1 ∧ (k + 1) % sh = 0 := by
+    rw [Int.ediv_emod_unique hs]
+    refine ⟨?_, Int.le_refl _, hs⟩
+    rw [Int.mul_add]; omega
+  exact ⟨this.2, this.1⟩
+
+theorem divmod_succ_nocarry {k sh : Int} (hs : 0 < sh) (h : k % sh + 1 ≠ sh) :
+    (k + 1) % sh = k % sh + 1 ∧ (k + 1) / sh = k / sh := by
+  have h1 := Int.emod_add_mul_ediv k sh
+  have h2 := Int.emod_nonneg k (Int.ne_of_gt hs)
+  have h3 := Int.emod_lt_of_pos k hs
+  have : (k + 1) / sh = k / sh ∧ (k + 1) % sh = k % sh + 1 := by
+    rw [Int.ediv_emod_unique hs]
+    refine ⟨by omega, by omega, by omega⟩
+  exact ⟨this.2, this.1⟩
+
+theorem digits_prod : ∀ (rsh : List Int), (∀ d ∈ rsh, 0 < d) → digits rsh (prod rsh) = rsh.map (fun _ => 0)
+  | [], _ => rfl
+  | sh :: shs, h => by
+    have hs : 0 < sh := h sh (by simp)
+    have ih := digits_prod shs (fun d hd => h d (by simp [hd]))
+    simp only [digits, prod, List.map_cons]
+    rw [Int.mul_emod_right, Int.mul_ediv_cancel_left _ (Int.ne_of_gt hs), ih]
+
+/-- The odometer step on the digits of `k` gives the digits of `k+1`, and moves the offset
+    accordingly; `done` exactly when `k+1` is the total size. -/
+theorem ndNextLoop_digits : ∀ (rsh rst : List Int), rst.length = rsh.length → (∀ d ∈ rsh, 0 < d) →
+    ∀ (k ni : Int), 0 ≤ k → k < prod rsh →
+    ndNextLoop (digits rsh k) rsh rst ni =
+      (digits rsh (k + 1), ni - dot (digits rsh k) rst + dot (digits rsh (k + 1)) rst,
+        !rsh.isEmpty && decide (k + 1 = prod rsh))
+  | [], rst, _, _, k, ni, _, _ => by simp [ndNextLoop, digits, dot]
+  | sh :: shs, [], h, _, _, _, _, _ => by simp at h
+  | sh :: shs, st :: sts, hl, hp, k, ni, hk0, hk => by
+    have hs : 0 < sh := hp sh (by simp)
+    have hp' : ∀ d ∈ shs, 0 < d := fun d hd => hp d (by simp [hd])
+    have hl' : sts.length = shs.length := by simpa using hl
+    have hP := prod_pos shs hp'
+    simp only [prod] at hk
+    have hq0 : 0 ≤ k / sh := Int.ediv_nonneg hk0 (Int.le_of_lt hs)
+    have hq : k / sh < prod shs := Int.ediv_lt_of_lt_mul hs (by rw [Int.mul_comm]; exact hk)
+    have hdm := Int.emod_add_mul_ediv k sh
+    have hr0 := Int.emod_nonneg k (Int.ne_of_gt hs)
+    have hr1 := Int.emod_lt_of_pos k hs
+    simp only [digits, ndNextLoop, prod]
+    by_cases hc : k % sh + 1 = sh
+    · obtain ⟨e1, e2⟩ := divmod_succ_carry hs hc
+      have ih := ndNextLoop_digits shs sts hl' hp' (k / sh) (ni - (sh - 1) * st) hq0 hq
+      have hr : k % sh = sh - 1 := by omega
+      have hcb : (k % sh + 1 == sh) = true := by simp [hc]
+      simp only [hcb, if_true, ih, e1, e2, dot]
+      refine Prod.ext rfl (Prod.ext ?_ ?_)
+      · simp only [hr]; omega
+      · simp only [List.isEmpty_cons, Bool.not_false, Bool.true_and]
+        have hkk : k + 1 = sh * (k / sh + 1) := by rw [Int.mul_add]; omega
+        cases shs with
+        | nil =>
+          simp only [prod] at hq
+          have : k / sh = 0 := by omega
+          simp [digits, prod, hkk, this]
+        | cons a as =>
+          simp only [digits, List.isEmpty_cons, Bool.not_false, Bool.true_and, if_false,
+            Bool.false_eq_true]
+          rw [hkk]
+          by_cases he : k / sh + 1 = prod (a :: as)
+          · simp [he]
+          · have : sh * (k / sh + 1) ≠ sh * prod (a :: as) := by
+              intro hh; exact he (Int.eq_of_mul_eq_mul_left (Int.ne_of_gt hs) hh)
+            simp [he, this]
+    · obtain ⟨e1, e2⟩ := divmod_succ_nocarry hs hc
+      have hne : k + 1 ≠ sh * prod shs := by
+        intro hh
+        have : (k + 1) % sh = 0 := by rw [hh]; exact Int.mul_emod_right _ _
+        omega
+      simp only [beq_iff_eq, hc, if_false, e1, e2, dot, hne, decide_false, Bool.and_false]
+      refine Prod.ext rfl (Prod.ext ?_ rfl)
+      simp only [Int.add_mul]; omega
+
+/-- index before `k` in the cyclic order of `0..P-1` -/
+def predIdx (P k : Int) : Int := if k = 0 then P - 1 else k - 1
+
+/-- The reverse odometer step on the digits of `k` gives the digits of `k-1` (wrapping to the
+    last coordinate with `done` when `k = 0`). -/
+theorem ndPrevLoop_digits : ∀ (rsh rst : List Int), rst.length = rsh.length → (∀ d ∈ rsh, 0 < d) →
+    ∀ (k ni : Int), 0 ≤ k → k < prod rsh →
+    ndPrevLoop (digits rsh k) rsh rst ni =
+      (digits rsh (predIdx (prod rsh) k),
+        ni - dot (digits rsh k) rst + dot (digits rsh (predIdx (prod rsh) k)) rst,
+        !rsh.isEmpty && decide (k = 0))
+  | [], rst, _, _, k, ni, _, _ => by simp [ndPrevLoop, digits, dot]
+  | sh :: shs, [], h, _, _, _, _, _ => by simp at h
+  | sh :: shs, st :: sts, hl, hp, k, ni, hk0, hk => by
+    have hs : 0 < sh := hp sh (by simp)
+    have hp' : ∀ d ∈ shs, 0 < d := fun d hd => hp d (by simp [hd])
+    have hl' : sts.length = shs.length := by simpa using hl
+    have hP := prod_pos shs hp'
+    simp only [prod] at hk
+    have hq0 : 0 ≤ k / sh := Int.ediv_nonneg hk0 (Int.le_of_lt hs)
+    have hq : k / sh < prod shs := Int.ediv_lt_of_lt_mul hs (by rw [Int.mul_comm]; exact hk)
+    have hdm := Int.emod_add_mul_ediv k sh
+    have hr0 := Int.emod_nonneg k (Int.ne_of_gt hs)
+    have hr1 := Int.emod_lt_of_pos k hs
+    simp only [digits, ndPrevLoop, prod]
+    by_cases hc : k % sh - 1 < 0
+    · have hr : k % sh = 0 := by omega
+      have ih := ndPrevLoop_digits shs sts hl' hp' (k / sh) (ni + (sh - 1) * st) hq0 hq
+      have hkq : k = sh * (k / sh) := by omega
+      have hk0q : k = 0 ↔ k / sh = 0 := by
+        constructor
+        · intro h0; rw [h0]; simp
+        · intro h0; rw [hkq, h0]; simp
+      have key : predIdx (sh * prod shs) k / sh = predIdx (prod shs) (k / sh) ∧
+          predIdx (sh * prod shs) k % sh = sh - 1 := by
+        rw [Int.ediv_emod_unique hs]
+        refine ⟨?_, by omega, by omega⟩
+        unfold predIdx
+        by_cases h0 : k / sh = 0
+        · have hk00 : k = 0 := hk0q.2 h0
+          rw [if_pos h0, if_pos hk00, Int.mul_sub]; omega
+        · have hk00 : ¬ k = 0 := fun h => h0 (hk0q.1 h)
+          rw [if_neg h0, if_neg hk00, Int.mul_sub]; omega
+      simp only [hc, if_true, ih, key.1, key.2, dot]
+      refine Prod.ext rfl (Prod.ext ?_ ?_)
+      · simp only [hr]; omega
+      · simp only [List.isEmpty_cons, Bool.not_false, Bool.true_and]
+        cases shs with
+        | nil =>
+          simp only [prod] at hq
+          have : k / sh = 0 := by omega
+          simp [digits, hk0q.2 this]
+        | cons a as =>
+          simp only [digits, List.isEmpty_cons, Bool.not_false, Bool.true_and, if_false,
+            Bool.false_eq_true]
+          by_cases h0 : k / sh = 0
+          · simp [hk0q.2 h0]
+          · have hk00 : ¬ k = 0 := fun h => h0 (hk0q.1 h)
+            simp [h0, hk00]
+    · have hk00 : ¬ k = 0 := by intro h0; rw [h0] at hc; simp at hc
+      have key : (k - 1) / sh = k / sh ∧ (k - 1) % sh = k % sh - 1 := by
+        rw [Int.ediv_emod_unique hs]
+        refine ⟨by omega, by omega, by omega⟩
+      simp only [hc, if_false, predIdx, hk00, key.1, key.2, dot, decide_false, Bool.and_false]
+      refine Prod.ext rfl (Prod.ext ?_ rfl)
+      simp only [Int.sub_mul]; omega
+
+/-! ### coordinates by index -/
+
+theorem digits_append : ∀ (a b : List Int), (∀ d ∈ a, 0 < d) → ∀ k,
+    digits (a ++ b) k = digits a k ++ digits b (k / prod a)
+  | [], b, _, k => by simp [digits, prod]
+  | sh :: shs, b, h, k => by
+    have hs : 0 < sh := h sh (by simp)
+    have ih := digits_append shs b (fun d hd => h d (by simp [hd])) (k / sh)
+    have : k / sh / prod shs = k / (sh * prod shs) := by
+      rw [Int.ediv_ediv, if_neg (by omega)]; simp
+    simp only [List.cons_append, digits, prod, ih, this]
+
+theorem digits_add_mul : ∀ (rsh : List Int), (∀ d ∈ rsh, 0 < d) → ∀ k m,
+    digits rsh (k + prod rsh * m) = digits rsh k
+  | [], _, _, _ => rfl
+  | sh :: shs, h, k, m => by
+    have hs : 0 < sh := h sh (by simp)
+    have ih := digits_add_mul shs (fun d hd => h d (by simp [hd])) (k / sh) m
+    simp only [digits, prod]
+    rw [Int.mul_assoc, Int.add_mul_emod_self_left, Int.add_mul_ediv_left _ _ (Int.ne_of_gt hs), ih]
+
+/-- the `k`-th coordinate of `shape` in row-major order -/
+def coordAt (shape : List Int) (k : Int) : List Int := (digits shape.reverse k).reverse
+
+@[simp] theorem coordAt_length (shape : List Int) (k : Int) : (coordAt shape k).length = shape.length := by
+  simp [coordAt]
+
+theorem coordAt_zero (shape : List Int) : coordAt shape 0 = shape.map (fun _ => 0) := by
+  simp [coordAt, digits_zero]
+
+theorem coordAt_cons (d : Int) (ds : List Int) (_hd : 0 < d) (hp : ∀ x ∈ ds, 0 < x) (i j : Int)
+    (hi0 : 0 ≤ i) (hi : i < d) (hj0 : 0 ≤ j) (hj : j < prod ds) :
+    coordAt (d :: ds) (i * prod ds + j) = i :: coordAt ds j := by
+  have hp' : ∀ x ∈ ds.reverse, 0 < x := fun x hx => hp x (by simpa using hx)
+  have e : i * prod ds + j = j + prod ds.reverse * i := by
+    rw [prod_reverse, Int.mul_comm]; omega
+  have hP : 0 < prod ds := prod_pos ds hp
+  simp only [coordAt, List.reverse_cons]
+  rw [digits_append _ _ hp', e, digits_add_mul _ hp', prod_reverse,
+    Int.add_mul_ediv_left _ _ (Int.ne_of_gt hP), Int.ediv_eq_zero_of_lt hj0 hj]
+  simp [digits, Int.emod_eq_of_lt hi0 hi]
+
+theorem flatMap_congr' {α β} {l : List α} {f g : α → List β} (h : ∀ a ∈ l, f a = g a) :
+    l.flatMap f = l.flatMap g := by
+  induction l with
+  | nil => rfl
+  | cons x xs ih =>
+    simp only [List.flatMap_cons]
+    rw [h x (by simp), ih (fun a ha => h a (by simp [ha]))]
+
+theorem range_mul_map {α} (f : Nat → α) (a b : Nat) :
+    (List.range (a * b)).map f =
+      (List.range a).flatMap (fun i => (List.range b).map (fun j => f (i * b + j))) := by
+  induction a with
+  | zero => simp
+  | succ a ih =>
+    rw [Nat.succ_mul, List.range_add, List.map_append, ih, List.range_succ, List.flatMap_append]
+    simp
+
+theorem allCoords_eq : ∀ (shape : List Int), (∀ d ∈ shape, 0 < d) →
+    allCoords shape = (List.range (prod shape).toNat).map (fun (k : Nat) => coordAt shape (k : Int))
+  | [], _ => by simp [allCoords, prod, coordAt, digits]
+  | d :: ds, h => by
+    have hd : 0 < d := h d (by simp)
+    have hp : ∀ x ∈ ds, 0 < x := fun x hx => h x (by simp [hx])
+    have hP : 0 < prod ds := prod_pos ds hp
+    have ih := allCoords_eq ds hp
+    simp only [allCoords, prod, rangeI]
+    rw [Int.toNat_mul (Int.le_of_lt hd) (Int.le_of_lt hP), range_mul_map, ih, List.flatMap_map]
+    apply flatMap_congr'
+    intro i hi
+    rw [List.map_map]
+    apply List.map_congr_left
+    intro j hj
+    simp only [List.mem_range] at hi hj
+    have e : ((i * (prod ds).toNat + j : Nat) : Int) = (i : Int) * prod ds + (j : Int) := by
+      rw [Int.natCast_add, Int.natCast_mul, Int.toNat_of_nonneg (Int.le_of_lt hP)]
+    simp only [Function.comp]
+    rw [e, coordAt_cons d ds hd hp i j (by omega) (by omega) (by omega) (by omega)]
+    rfl
+
+theorem allCoords_length (shape : List Int) (h : ∀ d ∈ shape, 0 < d) :
+    (allCoords shape).length = (prod shape).toNat := by
+  rw [allCoords_eq shape h]; simp
+
+/-! ### running a sequence of states -/
+
+theorem run_seq (s : Nat → FlatIt) (o : Nat → Int) (n : Nat)
+    (hstep : ∀ k, k < n → (s k).next = (s (k + 1), some (o k)))
+    (hend : (s n).next = (s n, none)) :
+    ∀ m j, j + m = n → ∀ e, FlatIt.run (m + e + 1) (s j) = ((List.range' j m).map o, s n)
+  | 0, j, h, e => by
+    have : j = n := by omega
+    subst this
+    simp [FlatIt.run, hend]
+  | m + 1, j, h, e => by
+    have ih := run_seq s o n hstep hend m (j + 1) (by omega) e
+    have e1 : m + 1 + e + 1 = (m + e + 1) + 1 := by omega
+    rw [e1, FlatIt.run, hstep j (by omega)]
+    simp [ih, List.range'_succ]
+
+theorem run_seq_partial (s : Nat → FlatIt) (o : Nat → Int) (n : Nat)
+    (hstep : ∀ k, k < n → (s k).next = (s (k + 1), some (o k))) :
+    ∀ m j, j + m ≤ n → FlatIt.run m (s j) = ((List.range' j m).map o, s (j + m))
+  | 0, j, _ => by simp [FlatIt.run]
+  | m + 1, j, h => by
+    have ih := run_seq_partial s o n hstep m (j + 1) (by omega)
+    rw [FlatIt.run, hstep j (by omega)]
+    simp only [ih, List.range'_succ, List.map_cons]
+    congr 2; omega
+
+theorem run_seq_full (s : Nat → FlatIt) (o : Nat → Int) (n : Nat)
+    (hstep : ∀ k, k < n → (s k).next = (s (k + 1), some (o k)))
+    (hend : (s n).next = (s n, none)) :
+    FlatIt.run (n + 1) (s 0) = ((List.range n).map o, s n) := by
+  have := run_seq s o n hstep hend n 0 (by omega) 0
+  simpa [List.range_eq_range'] using this
+
+/-! ### the odometer path of `FlatIt` -/
+
+theorem dot_zeros : ∀ (l s : List Int), dot (l.map (fun _ => (0 : Int))) s = 0
+  | [], _ => by simp [dot]
+  | _ :: xs, [] => by simp [dot]
+  | _ :: xs, _ :: ss => by simp [dot, dot_zeros xs ss]
+
+theorem dot_coordAt (shape strides : List Int) (hl : strides.length = shape.length) (k : Int) :
+    dot (digits shape.reverse k) strides.reverse = dot (coordAt shape k) strides := by
+  have := dot_reverse (digits shape.reverse k) strides.reverse (by simp [hl])
+  rw [List.reverse_reverse] at this
+  exact this.symm
+
+theorem shape_ne_nil_of_not_veclike (ap : AP) (hl : ap.strides.length = ap.shape.length)
+    (hnv : ap.isVectorLike = false) : ap.shape ≠ [] := by
+  intro h
+  have hs : ap.strides = [] := by
+    rw [h] at hl; exact List.eq_nil_of_length_eq_zero hl
+  simp [AP.isVectorLike, isVectorLike, allOnes, h, hs] at hnv
+
+/-- state of the forward odometer after `k` steps -/
+def ndSt (ap : AP) (k : Nat) : FlatIt :=
+  { FlatIt.new ap with
+    track := coordAt ap.shape k
+    nextIndex := dot (coordAt ap.shape k) ap.strides
+    lastIndex := match k with
+      | 0 => 0
+      | j + 1 => dot (coordAt ap.shape (j : Nat)) ap.strides
+    done := decide (k = (prod ap.shape).toNat) }
+
+theorem ndSt_zero (ap : AP) (hp : ∀ d ∈ ap.shape, 0 < d) : ndSt ap 0 = FlatIt.new ap := by
+  have := prod_pos ap.shape hp
+  have h0 : ¬ (0 = (prod ap.shape).toNat) := by omega
+  simp [ndSt, FlatIt.new, coordAt_zero, dot_zeros, h0]
+
+theorem ndSt_next (ap : AP) (hl : ap.strides.length = ap.shape.length) (hp : ∀ d ∈ ap.shape, 0 < d)
+    (hnv : ap.isVectorLike = false) (k : Nat) (hk : k < (prod ap.shape).toNat) :
+    (ndSt ap k).next = (ndSt ap (k + 1), some (dot (coordAt ap.shape k) ap.strides)) := by
+  have hne := shape_ne_nil_of_not_veclike ap hl hnv
+  have hloop := ndNextLoop_digits ap.shape.reverse ap.strides.reverse (by simp [hl])
+    (fun d hd => hp d (by simpa using hd)) (k : Int) (dot (coordAt ap.shape k) ap.strides)
+    (by omega) (by rw [prod_reverse]; omega)
+  simp only [dot_coordAt _ _ hl, prod_reverse] at hloop
+  have hkn : ¬ (k = (prod ap.shape).toNat) := by omega
+  have hdone : (!ap.shape.reverse.isEmpty && decide ((k : Int) + 1 = prod ap.shape)) =
+      decide (k + 1 = (prod ap.shape).toNat) := by
+    have : ap.shape.reverse.isEmpty = false := by simp [hne]
+    rw [this]
+    have : ((k : Int) + 1 = prod ap.shape) ↔ (k + 1 = (prod ap.shape).toNat) := by omega
+    simp [this]
+  simp only [FlatIt.next, ndSt, FlatIt.new, hkn, decide_false, Bool.false_eq_true, if_false, hnv,
+    isScalar, List.isEmpty_iff, hne, coordAt, List.reverse_reverse]
+  simp only [coordAt] at hloop
+  rw [hloop, hdone]
+  simp only [Prod.mk.injEq, and_true]
+  congr 1
+  push_cast; omega
+
+theorem ndSt_end (ap : AP) : (ndSt ap (prod ap.shape).toNat).next = (ndSt ap (prod ap.shape).toNat, none) := by
+  simp [FlatIt.next, ndSt]
+
+theorem nd_run_full (ap : AP) (hl : ap.strides.length = ap.shape.length) (hp : ∀ d ∈ ap.shape, 0 < d)
+    (hnv : ap.isVectorLike = false) :
+    FlatIt.run ((prod ap.shape).toNat + 1) (FlatIt.new ap) =
+      ((List.range (prod ap.shape).toNat).map (fun (k : Nat) => dot (coordAt ap.shape k) ap.strides),
+        ndSt ap (prod ap.shape).toNat) := by
+  rw [← ndSt_zero ap hp]
+  exact run_seq_full (ndSt ap) _ _ (ndSt_next ap hl hp hnv) (ndSt_end ap)
+
+theorem nd_run_partial (ap : AP) (hl : ap.strides.length = ap.shape.length) (hp : ∀ d ∈ ap.shape, 0 < d)
+    (hnv : ap.isVectorLike = false) (k : Nat) (hk : k ≤ (prod ap.shape).toNat) :
+    FlatIt.run k (FlatIt.new ap) =
+      ((List.range k).map (fun (k : Nat) => dot (coordAt ap.shape k) ap.strides), ndSt ap k) := by
+  rw [← ndSt_zero ap hp]
+  have := run_seq_partial (ndSt ap) _ _ (ndSt_next ap hl hp hnv) k 0 (by omega)
+  simpa [List.range_eq_range'] using this
+
+theorem spec_eq (shape strides : List Int) (hp : ∀ d ∈ shape, 0 < d) :
+    (allCoords shape).map (fun c => dot c strides) =
+      (List.range (prod shape).toNat).map (fun (k : Nat) => dot (coordAt shape k) strides) := by
+  rw [allCoords_eq shape hp, List.map_map]; rfl
+
+/-! ### reverse odometer -/
+
+theorem digits_pred_prod : ∀ (rsh : List Int), (∀ d ∈ rsh, 0 < d) →
+    digits rsh (prod rsh - 1) = rsh.map (· - 1)
+  | [], _ => rfl
+  | sh :: shs, h => by
+    have hs : 0 < sh := h sh (by simp)
+    have hp' : ∀ d ∈ shs, 0 < d := fun d hd => h d (by simp [hd])
+    have ih := digits_pred_prod shs hp'
+    have key : (sh * prod shs - 1) / sh = prod shs - 1 ∧ (sh * prod shs - 1) % sh = sh - 1 := by
+      rw [Int.ediv_emod_unique hs]
+      refine ⟨?_, by omega, by omega⟩
+      rw [Int.mul_sub]; omega
+    simp only [digits, prod, List.map_cons, key.1, key.2, ih]
+
+theorem coordAt_last (shape : List Int) (hp : ∀ d ∈ shape, 0 < d) :
+    coordAt shape (prod shape - 1) = shape.map (· - 1) := by
+  unfold coordAt
+  rw [← prod_reverse shape, digits_pred_prod _ (fun d hd => hp d (by simpa using hd))]
+  simp
+
+/-- index visited at step `k` of the reverse run over `n` elements -/
+def revIdx (n k : Nat) : Int := if k = n then (n : Int) - 1 else (n : Int) - 1 - k
+
+/-- state of the reverse odometer after `k` steps -/
+def ndRevSt (ap : AP) (k : Nat) : FlatIt :=
+  { FlatIt.new ap with
+    reverse := true
+    track := coordAt ap.shape (revIdx (prod ap.shape).toNat k)
+    nextIndex := dot (coordAt ap.shape (revIdx (prod ap.shape).toNat k)) ap.strides
+    lastIndex := match k with
+      | 0 => 0
+      | j + 1 => dot (coordAt ap.shape (revIdx (prod ap.shape).toNat j)) ap.strides
+    done := decide (k = (prod ap.shape).toNat) }
+
+theorem ndRevSt_zero (ap : AP) (hl : ap.strides.length = ap.shape.length) (hp : ∀ d ∈ ap.shape, 0 < d)
+    (hnv : ap.isVectorLike = false) : (FlatIt.new ap).setReverse = .ok (ndRevSt ap 0) := by
+  have hne := shape_ne_nil_of_not_veclike ap hl hnv
+  have hP := prod_pos ap.shape hp
+  have h0 : ¬ (0 = (prod ap.shape).toNat) := by omega
+  have hi : revIdx (prod ap.shape).toNat 0 = prod ap.shape - 1 := by
+    unfold revIdx; rw [if_neg h0]; omega
+  have hlt : ¬ (ap.strides.length < ap.shape.length) := by omega
+  simp [FlatIt.setReverse, FlatIt.reset, FlatIt.new, ndRevSt, hnv, isScalar, hne, hlt, hi,
+    coordAt_last ap.shape hp, h0]
+
+theorem ndRevSt_next (ap : AP) (hl : ap.strides.length = ap.shape.length) (hp : ∀ d ∈ ap.shape, 0 < d)
+    (hnv : ap.isVectorLike = false) (k : Nat) (hk : k < (prod ap.shape).toNat) :
+    (ndRevSt ap k).next = (ndRevSt ap (k + 1),
+      some (dot (coordAt ap.shape ((prod ap.shape).toNat - 1 - k : Nat)) ap.strides)) := by
+  have hne := shape_ne_nil_of_not_veclike ap hl hnv
+  have hkn : ¬ (k = (prod ap.shape).toNat) := by omega
+  have hc : revIdx (prod ap.shape).toNat k = (((prod ap.shape).toNat - 1 - k : Nat) : Int) := by
+    unfold revIdx; rw [if_neg hkn]; omega
+  have hloop := ndPrevLoop_digits ap.shape.reverse ap.strides.reverse (by simp [hl])
+    (fun d hd => hp d (by simpa using hd)) (revIdx (prod ap.shape).toNat k)
+    (dot (coordAt ap.shape (revIdx (prod ap.shape).toNat k)) ap.strides)
+    (by rw [hc]; omega) (by rw [prod_reverse, hc]; omega)
+  simp only [dot_coordAt _ _ hl, prod_reverse] at hloop
+  have hpi : predIdx (prod ap.shape) (revIdx (prod ap.shape).toNat k) =
+      revIdx (prod ap.shape).toNat (k + 1) := by
+    unfold predIdx revIdx
+    rw [if_neg hkn]
+    by_cases h1 : k + 1 = (prod ap.shape).toNat
+    · rw [if_pos h1, if_pos (by omega)]; omega
+    · rw [if_neg h1, if_neg (by omega)]; omega
+  have hdone : (!ap.shape.reverse.isEmpty && decide (revIdx (prod ap.shape).toNat k = 0)) =
+      decide (k + 1 = (prod ap.shape).toNat) := by
+    have : ap.shape.reverse.isEmpty = false := by simp [hne]
+    rw [this, hc]
+    have : ((((prod ap.shape).toNat - 1 - k : Nat) : Int) = 0) ↔ (k + 1 = (prod ap.shape).toNat) := by
+      omega
+    simp only [this, Bool.not_false, Bool.true_and]
+  rw [hpi, hdone] at hloop
+  rw [← hc]
+  simp only [FlatIt.next, ndRevSt, FlatIt.new, hkn, decide_false, Bool.false_eq_true, if_false, hnv,
+    isScalar, List.isEmpty_iff, hne, coordAt, List.reverse_reverse, if_true]
+  simp only [coordAt] at hloop
+  rw [hloop]
+  simp only [Prod.mk.injEq, and_true]
+  congr 1
+  omega
+
+theorem ndRevSt_end (ap : AP) :
+    (ndRevSt ap (prod ap.shape).toNat).next = (ndRevSt ap (prod ap.shape).toNat, none) := by
+  simp [FlatIt.next, ndRevSt]
+
+theorem range_map_rev {α} (f : Nat → α) (n : Nat) :
+    (List.range n).map (fun k => f (n - 1 - k)) = ((List.range n).map f).reverse := by
+  apply List.ext_getElem
+  · simp
+  · intro i h1 h2
+    simp at h1
+    simp [List.getElem_reverse]
+
+theorem nd_rev_run_full (ap : AP) (hl : ap.strides.length = ap.shape.length) (hp : ∀ d ∈ ap.shape, 0 < d)
+    (hnv : ap.isVectorLike = false) :
+    FlatIt.run ((prod ap.shape).toNat + 1) (ndRevSt ap 0) =
+      (((List.range (prod ap.shape).toNat).map
+          (fun (k : Nat) => dot (coordAt ap.shape k) ap.strides)).reverse,
+        ndRevSt ap (prod ap.shape).toNat) := by
+  rw [← range_map_rev]
+  exact run_seq_full (ndRevSt ap) _ _ (ndRevSt_next ap hl hp hnv) (ndRevSt_end ap)
+
+/-! ### vector-like shapes: spec side -/
+
+theorem prod_ones : ∀ (l : List Int), (∀ x ∈ l, x = 1) → prod l = 1
+  | [], _ => rfl
+  | x :: xs, h => by
+    simp [prod, h x (by simp), prod_ones xs (fun y hy => h y (by simp [hy]))]
+
+theorem allCoords_ones : ∀ (l : List Int), (∀ x ∈ l, x = 1) → allCoords l = [l.map (fun _ => 0)]
+  | [], _ => rfl
+  | x :: xs, h => by
+    simp [allCoords, h x (by simp), allCoords_ones xs (fun y hy => h y (by simp [hy])), rangeI]
+
+/-- for a vector-like shape: either the head is 1 and the tail is vector-like, or the tail is all ones -/
+theorem isVectorLike_cons (d : Int) (ds : List Int) (h : isVectorLike (d :: ds) = true) :
+    (d = 1 ∧ isVectorLike ds = true) ∨ (d ≠ 1 ∧ ∀ x ∈ ds, x = 1) := by
+  unfold isVectorLike at h ⊢
+  by_cases hd : d = 1
+  · left
+    refine ⟨hd, ?_⟩
+    simpa [hd] using h
+  · right
+    refine ⟨hd, ?_⟩
+    have hf : (d :: ds).filter (· != 1) = d :: ds.filter (· != 1) := by simp [hd]
+    rw [hf] at h
+    have : ds.filter (· != 1) = [] := by
+      apply List.eq_nil_of_length_eq_zero
+      simp only [List.length_cons, decide_eq_true_eq] at h; omega
+    intro x hx
+    have := (List.filter_eq_nil_iff.1 this) x hx
+    simpa using this
+
+theorem veclike_spec : ∀ (shape strides : List Int), strides.length = shape.length →
+    (∀ d ∈ shape, 0 < d) → isVectorLike shape = true → allOnes strides = true →
+    (allCoords shape).map (fun c => dot c strides) = rangeI (prod shape).toNat
+  | [], _, _, _, _, _ => by simp [allCoords, dot, prod, rangeI, List.range_succ]
+  | d :: ds, [], hl, _, _, _ => by simp at hl
+  | d :: ds, st :: sts, hl, hp, hv, ho => by
+    have hl' : sts.length = ds.length := by simpa using hl
+    have hp' : ∀ x ∈ ds, 0 < x := fun x hx => hp x (by simp [hx])
+    have hst : st = 1 := by
+      have := ho; simp [allOnes] at this; exact this.1
+    have ho' : allOnes sts = true := by
+      have := ho; simp [allOnes] at this; simpa [allOnes] using this.2
+    subst hst
+    rcases isVectorLike_cons d ds hv with ⟨hd, hv'⟩ | ⟨hd, hones⟩
+    · subst hd
+      have ih := veclike_spec ds sts hl' hp' hv' ho'
+      simp only [allCoords, rangeI, prod, Int.one_mul]
+      simp only [Int.toNat_one, List.range_one, List.map_cons, List.map_nil, List.flatMap_cons,
+        List.flatMap_nil, List.append_nil, List.map_map]
+      simp only [rangeI] at ih
+      rw [← ih]
+      apply List.map_congr_left
+      intro c _
+      simp [dot]
+    · simp only [allCoords, allCoords_ones ds hones, prod, prod_ones ds hones, Int.mul_one, rangeI]
+      simp only [List.flatMap_map, List.map_cons, List.map_nil, List.map_flatMap, dot, dot_zeros,
+        Int.mul_one, Int.add_zero]
+      generalize List.range d.toNat = l
+      induction l with
+      | nil => rfl
+      | cons a as ih =>
+        simp only [List.flatMap_cons, List.map_cons, ih]; rfl
+
+/-! ### vector-like fast path -/
+
+/-- the `veclikeDim` of a vector-like shape -/
+def vdim (shape : List Int) : Nat := (shape.findIdx? (· != 1)).getD 0
+
+theorem vdim_lt (shape : List Int) (hne : shape ≠ []) : vdim shape < shape.length := by
+  unfold vdim
+  cases h : shape.findIdx? (· != 1) with
+  | none => simpa using List.length_pos_iff.2 hne
+  | some i => simpa using (List.findIdx?_eq_some_iff_findIdx_eq.1 h).1
+
+theorem set_same {α} : ∀ (l : List α) (i : Nat) (a : α), l[i]? = some a → l.set i a = l
+  | [], _, _, h => by simp at h
+  | x :: xs, 0, a, h => by simp at h; simp [h]
+  | x :: xs, i + 1, a, h => by
+    simp at h; simp [set_same xs i a h]
+
+/-- state of the forward vector path after `k` steps -/
+def vecSt (ap : AP) (k : Nat) : FlatIt :=
+  { FlatIt.new ap with
+    track := (ap.shape.map (fun _ => (0 : Int))).set (vdim ap.shape) (k : Int)
+    nextIndex := (k : Int)
+    lastIndex := match k with
+      | 0 => 0
+      | j + 1 => (j : Int)
+    done := decide (prod ap.shape ≤ (k : Int)) }
+
+theorem vecSt_zero (ap : AP) (hp : ∀ d ∈ ap.shape, 0 < d) (hne : ap.shape ≠ []) :
+    vecSt ap 0 = FlatIt.new ap := by
+  have hP := prod_pos ap.shape hp
+  have h0 : ¬ (prod ap.shape ≤ 0) := by omega
+  have hs : (ap.shape.map (fun _ => (0 : Int))).set (vdim ap.shape) 0 = ap.shape.map (fun _ => (0 : Int)) := by
+    apply set_same
+    have := vdim_lt ap.shape hne
+    simp [this]
+  simp [vecSt, FlatIt.new, h0, hs]
+
+theorem vecSt_next (ap : AP) (hv : ap.isVectorLike = true) (hne : ap.shape ≠ [])
+    (k : Nat) (hk : k < (prod ap.shape).toNat) :
+    (vecSt ap k).next = (vecSt ap (k + 1), some (k : Int)) := by
+  have hlt := vdim_lt ap.shape hne
+  have hkn : ¬ (prod ap.shape ≤ (k : Int)) := by omega
+  have hget : ((ap.shape.map (fun _ => (0 : Int))).set (vdim ap.shape) (k : Int))[vdim ap.shape]? =
+      some (k : Int) := List.getElem?_set_self (by simpa using hlt)
+  have hd : (ap.shape.findIdx? (· != 1)).getD 0 = vdim ap.shape := rfl
+  simp only [FlatIt.next, vecSt, FlatIt.new, hkn, decide_false, Bool.false_eq_true, if_false, hv,
+    isScalar, List.isEmpty_iff, hne, if_true, hd, hget, Option.getD_some, List.set_set, totalSize]
+  simp only [Prod.mk.injEq, and_true]
+  congr 1
+
+theorem vecSt_end (ap : AP) :
+    (vecSt ap (prod ap.shape).toNat).next = (vecSt ap (prod ap.shape).toNat, none) := by
+  have : prod ap.shape ≤ ((prod ap.shape).toNat : Int) := by omega
+  simp only [FlatIt.next, vecSt, this, decide_true, if_true]
+
+theorem vec_run_full (ap : AP) (hp : ∀ d ∈ ap.shape, 0 < d)
+    (hv : ap.isVectorLike = true) (hne : ap.shape ≠ []) :
+    FlatIt.run ((prod ap.shape).toNat + 1) (FlatIt.new ap) =
+      (rangeI (prod ap.shape).toNat, vecSt ap (prod ap.shape).toNat) := by
+  rw [← vecSt_zero ap hp hne]
+  exact run_seq_full (vecSt ap) _ _ (vecSt_next ap hv hne) (vecSt_end ap)
+
+theorem vdim_get : ∀ (shape : List Int), isVectorLike shape = true → shape ≠ [] →
+    shape[vdim shape]? = some (prod shape)
+  | [], _, h => absurd rfl h
+  | d :: ds, hv, _ => by
+    rcases isVectorLike_cons d ds hv with ⟨hd, hv'⟩ | ⟨hd, hones⟩
+    · subst hd
+      cases hf : ds.findIdx? (· != 1) with
+      | none =>
+        have hones : ∀ x ∈ ds, x = 1 := by
+          intro x hx
+          have := (List.findIdx?_eq_none_iff.1 hf) x hx
+          simpa using this
+        simp [vdim, List.findIdx?_cons, hf, prod, prod_ones ds hones]
+      | some i =>
+        have hne : ds ≠ [] := by
+          intro h; rw [h] at hf; simp at hf
+        have ih := vdim_get ds hv' hne
+        have hi : vdim ds = i := by simp [vdim, hf]
+        rw [hi] at ih
+        simp [vdim, List.findIdx?_cons, hf, prod, ih]
+    · simp [vdim, List.findIdx?_cons, hd, prod, prod_ones ds hones]
+
+theorem allOnes_get (strides : List Int) (ho : allOnes strides = true) (i : Nat) (hi : i < strides.length) :
+    strides[i]? = some 1 := by
+  rw [List.getElem?_eq_getElem hi]
+  have := (List.all_eq_true.1 ho) strides[i] (List.getElem_mem hi)
+  simp at this
+  rw [this]
+
+/-- state of the reverse vector path after `k` steps -/
+def vecRevSt (ap : AP) (k : Nat) : FlatIt :=
+  { FlatIt.new ap with
+    reverse := true
+    track := (ap.shape.map (· - 1)).set (vdim ap.shape) (prod ap.shape - 1 - (k : Int))
+    nextIndex := prod ap.shape - 1 - (k : Int)
+    lastIndex := match k with
+      | 0 => 0
+      | j + 1 => prod ap.shape - 1 - (j : Int)
+    done := decide (prod ap.shape - 1 - (k : Int) < 0) }
+
+theorem vecRevSt_zero (ap : AP) (hl : ap.strides.length = ap.shape.length) (hp : ∀ d ∈ ap.shape, 0 < d)
+    (hv : ap.isVectorLike = true) (hne : ap.shape ≠ []) :
+    (FlatIt.new ap).setReverse = .ok (vecRevSt ap 0) := by
+  have hP := prod_pos ap.shape hp
+  have hvl : isVectorLike ap.shape = true := by
+    simp [AP.isVectorLike] at hv; exact hv.1
+  have ho : allOnes ap.strides = true := by
+    simp [AP.isVectorLike] at hv; exact hv.2
+  have hlt := vdim_lt ap.shape hne
+  have hg1 := vdim_get ap.shape hvl hne
+  have hg2 := allOnes_get ap.strides ho (vdim ap.shape) (by omega)
+  have hd : (ap.shape.findIdx? (· != 1)).getD 0 = vdim ap.shape := rfl
+  have h0 : ¬ (prod ap.shape - 1 < 0) := by omega
+  have hs : (ap.shape.map (· - 1)).set (vdim ap.shape) (prod ap.shape - 1) = ap.shape.map (· - 1) := by
+    apply set_same
+    simp [hg1]
+  simp only [FlatIt.setReverse, FlatIt.reset, FlatIt.new, vecRevSt, hv, if_true, isScalar,
+    List.isEmpty_iff, hne, if_false, hd, hg1, hg2, Int.natCast_zero, Int.sub_zero,
+    hs, h0, decide_false, Int.mul_one]
+
+theorem vecRevSt_next (ap : AP) (hv : ap.isVectorLike = true) (hne : ap.shape ≠ [])
+    (k : Nat) (hk : k < (prod ap.shape).toNat) :
+    (vecRevSt ap k).next = (vecRevSt ap (k + 1), some (prod ap.shape - 1 - (k : Int))) := by
+  have hlt := vdim_lt ap.shape hne
+  have hkn : ¬ (prod ap.shape - 1 - (k : Int) < 0) := by omega
+  have hget : ((ap.shape.map (· - 1)).set (vdim ap.shape) (prod ap.shape - 1 - (k : Int)))[vdim ap.shape]? =
+      some (prod ap.shape - 1 - (k : Int)) := List.getElem?_set_self (by simpa using hlt)
+  have hd : (ap.shape.findIdx? (· != 1)).getD 0 = vdim ap.shape := rfl
+  simp only [FlatIt.next, vecRevSt, FlatIt.new, hkn, decide_false, Bool.false_eq_true, if_false, hv,
+    isScalar, List.isEmpty_iff, hne, if_true, hd, hget, Option.getD_some, List.set_set]
+  simp only [Prod.mk.injEq, and_true]
+  have e : prod ap.shape - 1 - (k : Int) - 1 = prod ap.shape - 1 - ((k + 1 : Nat) : Int) := by
+    push_cast; omega
+  rw [e]
+
+theorem vecRevSt_end (ap : AP) :
+    (vecRevSt ap (prod ap.shape).toNat).next = (vecRevSt ap (prod ap.shape).toNat, none) := by
+  have : prod ap.shape - 1 - ((prod ap.shape).toNat : Int) < 0 := by omega
+  simp only [FlatIt.next, vecRevSt, this, decide_true, if_true]
+
+theorem vec_rev_run_full (ap : AP) (hv : ap.isVectorLike = true) (hne : ap.shape ≠ []) :
+    FlatIt.run ((prod ap.shape).toNat + 1) (vecRevSt ap 0) =
+      ((rangeI (prod ap.shape).toNat).reverse, vecRevSt ap (prod ap.shape).toNat) := by
+  have h := run_seq_full (vecRevSt ap) _ _ (vecRevSt_next ap hv hne) (vecRevSt_end ap)
+  rw [h]
+  congr 1
+  unfold rangeI
+  rw [← range_map_rev]
+  apply List.map_congr_left
+  intro k hk
+  simp only [List.mem_range] at hk
+  show prod ap.shape - 1 - (k : Int) = (((prod ap.shape).toNat - 1 - k : Nat) : Int)
+  omega
+
+/-! ### configuration fields and `lastIndex` independence (for `Reset`) -/
+
+/-- the fields of an iterator that `Next` never changes -/
+def cfgEq (a b : FlatIt) : Prop :=
+  a.shape = b.shape ∧ a.strides = b.strides ∧ a.size = b.size ∧ a.veclikeDim = b.veclikeDim ∧
+    a.reverse = b.reverse ∧ a.isScalar = b.isScalar ∧ a.isVector = b.isVector
+
+theorem next_cfg (it : FlatIt) : cfgEq it.next.1 it := by
+  by_cases h1 : it.done = true
+  · simp [FlatIt.next, h1, cfgEq]
+  by_cases h2 : it.isScalar = true
+  · simp [FlatIt.next, h1, h2, cfgEq]
+  by_cases h3 : it.isVector = true <;> by_cases h4 : it.reverse = true <;>
+    simp [FlatIt.next, h1, h2, h3, h4, cfgEq]
+
+theorem run_cfg : ∀ (fuel : Nat) (it : FlatIt), cfgEq (FlatIt.run fuel it).2 it
+  | 0, it => by simp [FlatIt.run, cfgEq]
+  | fuel + 1, it => by
+    have hn := next_cfg it
+    cases h : it.next with
+    | mk it' o =>
+      rw [h] at hn
+      cases o with
+      | none => simpa [FlatIt.run, h] using hn
+      | some i =>
+        have ih := run_cfg fuel it'
+        simp only [FlatIt.run, h]
+        unfold cfgEq at *
+        simp only at hn
+        refine ⟨ih.1.trans hn.1, ih.2.1.trans hn.2.1, ih.2.2.1.trans hn.2.2.1,
+          ih.2.2.2.1.trans hn.2.2.2.1, ih.2.2.2.2.1.trans hn.2.2.2.2.1,
+          ih.2.2.2.2.2.1.trans hn.2.2.2.2.2.1, ih.2.2.2.2.2.2.trans hn.2.2.2.2.2.2⟩
+
+theorem next_li (b : FlatIt) (x : Int) :
+    ∃ y, ({ b with lastIndex := x }).next = ({ b.next.1 with lastIndex := y }, b.next.2) := by
+  by_cases h1 : b.done = true
+  · exact ⟨x, by simp [FlatIt.next, h1]⟩
+  by_cases h2 : b.isScalar = true
+  · exact ⟨x, by simp [FlatIt.next, h1, h2]⟩
+  refine ⟨b.nextIndex, ?_⟩
+  by_cases h3 : b.isVector = true <;> by_cases h4 : b.reverse = true <;>
+    simp [FlatIt.next, h1, h2, h3, h4]
+
+theorem run_li : ∀ (fuel : Nat) (b : FlatIt) (x : Int),
+    (FlatIt.run fuel { b with lastIndex := x }).1 = (FlatIt.run fuel b).1
+  | 0, _, _ => rfl
+  | fuel + 1, b, x => by
+    obtain ⟨y, hy⟩ := next_li b x
+    cases hb : b.next with
+    | mk b' o =>
+      rw [hb] at hy
+      cases o with
+      | none => simp [FlatIt.run, hy, hb]
+      | some i =>
+        have ih := run_li fuel b' y
+        simp only [FlatIt.run, hy, hb]
+        rw [ih]
+
+theorem reset_forward (ap : AP) (itk it : FlatIt) (hc : cfgEq itk (FlatIt.new ap))
+    (h : itk.reset = .ok it) : it = { FlatIt.new ap with lastIndex := itk.lastIndex } := by
+  obtain ⟨h1, h2, h3, h4, h5, h6, h7⟩ := hc
+  have hr : itk.reverse = false := by rw [h5]; rfl
+  simp only [FlatIt.reset, hr, Bool.false_eq_true, if_false, Except.ok.injEq] at h
+  rw [← h]
+  cases itk
+  simp only [FlatIt.new] at *
+  simp [h1, h2, h3, h4, h6, h7]
+
+/-! ### scalar path and exhaustion -/
+
+theorem scalar_run_full (ap : AP) (hs : ap.shape = []) :
+    FlatIt.run ((totalSize ap.shape).toNat + 1) (FlatIt.new ap) =
+      ([0], { FlatIt.new ap with done := true }) := by
+  have e : (totalSize ap.shape).toNat + 1 = 1 + 1 := by simp [hs, totalSize, prod]
+  rw [e]
+  simp [FlatIt.run, FlatIt.next, FlatIt.new, hs, isScalar]
+
+theorem run_final (ap : AP) (hl : ap.strides.length = ap.shape.length) (hp : ∀ d ∈ ap.shape, 0 < d) :
+    (FlatIt.run ((totalSize ap.shape).toNat + 1) (FlatIt.new ap)).2.done = true ∧
+    (FlatIt.run ((totalSize ap.shape).toNat + 1) (FlatIt.new ap)).2.next =
+      ((FlatIt.run ((totalSize ap.shape).toNat + 1) (FlatIt.new ap)).2, none) := by
+  by_cases hs : ap.shape = []
+  · rw [scalar_run_full ap hs]
+    simp [FlatIt.next]
+  · by_cases hv : ap.isVectorLike = true
+    · have h := vec_run_full ap hp hv hs
+      simp only [totalSize]
+      rw [h]
+      refine ⟨?_, vecSt_end ap⟩
+      have : prod ap.shape ≤ ((prod ap.shape).toNat : Int) := by omega
+      simp only [vecSt, this, decide_true]
+    · have hnv : ap.isVectorLike = false := by simpa using hv
+      have h := nd_run_full ap hl hp hnv
+      simp only [totalSize]
+      rw [h]
+      refine ⟨?_, ndSt_end ap⟩
+      simp only [ndSt, decide_true]
+
+theorem nd_track (ap : AP) (hl : ap.strides.length = ap.shape.length) (hp : ∀ d ∈ ap.shape, 0 < d)
+    (hnv : ap.isVectorLike = false) (k : Nat) (hk : k < (allCoords ap.shape).length) :
+    (FlatIt.run k (FlatIt.new ap)).2.track = (allCoords ap.shape)[k]! := by
+  have hk' : k < (prod ap.shape).toNat := by rw [← allCoords_length ap.shape hp]; exact hk
+  rw [nd_run_partial ap hl hp hnv k (by omega)]
+  simp only [allCoords_eq ap.shape hp]
+  simp [ndSt, hk']
+
 end TM
